@@ -1540,6 +1540,10 @@ impl<'i, R: RuleType> ParserState<'i, R> {
     /// ```
     #[inline]
     pub fn stack_peek(self: Box<Self>) -> ParseResult<Box<Self>> {
+        // A refused call (call limit reached) may have skipped the `PUSH` this relies on.
+        if self.stack.is_empty() && self.reached_call_limit() {
+            return Err(self);
+        }
         let string = self
             .stack
             .peek()
@@ -1573,6 +1577,10 @@ impl<'i, R: RuleType> ParserState<'i, R> {
     /// ```
     #[inline]
     pub fn stack_pop(mut self: Box<Self>) -> ParseResult<Box<Self>> {
+        // A refused call (call limit reached) may have skipped the `PUSH` this relies on.
+        if self.stack.is_empty() && self.reached_call_limit() {
+            return Err(self);
+        }
         let string = self
             .stack
             .pop()
